@@ -354,13 +354,12 @@ theorem updateStatus_rel (p : Proc) (V V' : Nat → View) (i : Nat) (s : PState)
 /-- all views after one operation -/
 def stepViews (V : Nat → View) (now : Nat) (op : POp) : Nat → View := fun i => viewStep i (V i) now op
 
-/-- Inputs on which the statement is claimed (the two excluded classes are the known findings
-    `C11:lose-while-only-stopping` and `C11:remove-entry-not-stopped`; `upd`/`remove` without an entry are refused
-    by `Context.check_process` before they reach the status). -/
+/-- Inputs on which the statement is claimed (the excluded class is the known finding `C11:remove-entry-not-stopped`;
+    `upd`/`remove` without an entry are refused by `Context.check_process` before they reach the status).  The loss of an
+    instance is claimed without condition since the repair of `C11:lose-while-only-stopping`. -/
 def OpOk (V : Nat → View) : POp → Prop
   | .upd j _ _ _ _ => (V j).last.isSome = true
   | .remove j => ∃ s e, (V j).last = some (s, e) ∧ s.isStopped = true
-  | .lose j => (V j).listed = true → ∃ i s e, (V i).listed = true ∧ (V i).last = some (s, e) ∧ s.isRunning = true
   | _ => True
 
 theorem Rel.congr {p p' : Proc} {V V' : Nat → View} (h : Rel p V)
@@ -444,26 +443,19 @@ theorem pstep_rel (p : Proc) (V : Nat → View) (now : Nat) (op : POp) (hrel : R
       · simp [stepViews, viewStep]
       · intro j hj; have : ¬ i = j := fun h => hj h.symm; simp [stepViews, viewStep, this]
   | lose j =>
-    simp only [OpOk] at hok
     by_cases hl : (V j).listed = true
-    · -- listed: some listed instance is in a running state, so `running_on` holds and the entry turns FATAL
-      obtain ⟨i, s, e, hil, hilast, hrun⟩ := hok hl
+    · -- listed, whatever the synthetic state (running somewhere, or only STOPPING copies): the entry turns FATAL
       have hjr : j ∈ p.running := (hrel.listed j).mpr hl
-      have hir : i ∈ p.running := (hrel.listed i).mpr hil
-      obtain ⟨w, hw, _⟩ := hrel.listedOk i hir
-      have hws : w.state = s := by
-        have := hrel.entries i; rw [hw, hilast] at this; simpa using this
-      have hst : p.state.isRunning = true := hrel.stateRunning.mpr ⟨i, hir, w, hw, hws ▸ hrun⟩
       obtain ⟨v, hv, _⟩ := hrel.listedOk j hjr
       have hc : p.running.contains j = true := by simpa using hjr
-      simp only [pstep, runningOn, hst, hc, Bool.and_self, if_true, invalidateIdentifier, hv, updateInfo, resetForced_eq]
+      simp only [pstep, hc, if_true, invalidateIdentifier, hv, updateInfo, resetForced_eq]
       refine (updateStatus_rel p V (stepViews V now (.lose j)) j .fatal _ _ hrel rfl ?_ ?_ ?_).mono (fun a h => h.1)
       · simp [stepViews, viewStep, hl]
       · simp [stepViews, viewStep, hl, listedStep, PState.isRunning, PState.isStopped]
       · intro k hk; have : ¬ j = k := fun h => hk h.symm; simp [stepViews, viewStep, this]
     · have hjr : ¬ j ∈ p.running := fun h => hl ((hrel.listed j).mp h)
       have hc : p.running.contains j = false := by simpa using hjr
-      simp only [pstep, runningOn, hc, Bool.and_false, Bool.false_eq_true, if_false, Res.holds_ok]
+      simp only [pstep, invalidateIdentifier, hc, Bool.false_eq_true, if_false, Res.holds_ok]
       refine hrel.congr rfl rfl rfl ?_
       intro k
       by_cases hk : j = k
